@@ -10,7 +10,7 @@ import json,re,sys
 m=json.load(open('/verif/seeded/$n/meta.json'))
 ids=re.findall(r'C\d\d', m['caught_by'].split('(')[0]) or [m['property']]
 print(' '.join(dict.fromkeys(ids[:1])))")
-  if ! git -C /repo apply --check seeded/$n/patch.diff 2>/dev/null; then echo "$n SKIP (patch does not apply to HEAD)" >> $out; continue; fi
+  if ! git -C /repo apply --check /verif/seeded/$n/patch.diff 2>/dev/null; then echo "$n SKIP (patch does not apply to HEAD)" >> $out; continue; fi
   for id in $ids; do
     r=$(SEED_LINES=40 tools/seedrun.sh seeded/$n/patch.diff $id 2>&1 | grep -E "^exit=" | tail -1)
     echo "$n $id $r" >> $out
